@@ -71,7 +71,12 @@ def gen(rng, tier):
         force_default = False
         if roots and effects and any(abs(sum(b * b for _, b in effects) - 1) < 1e-9 for _ in [0]) and rng.random() < 0.8:
             force_default = True  # sum beta^2 = 1 up to rounding: mostly with the default noise (neither heritability nor environment)
-        yield {"data": data, "effects": effects, "h2": None if force_default else rng.choice(H2), "env": None if force_default else rng.choice(ENV), "normalize": True if many_const else rng.random() < 0.7, "K": rng.choice(PREV), "R": rng.randint(1, 3), "tape_seed": rng.randrange(2**31), "bool_matrix": (not repeats) and rng.random() < 0.35}
+        tiny = t % 10 == 5 and not force_default
+        if tiny:
+            # a fixed share: effects so small that the genetic component's variance is tiny (1e-8 and far below) but not zero,
+            # with a heritability and no environment: the noise variance is that tiny variance times (1/h2 - 1), not a default
+            effects = [[v, rng.choice([1e-5, -3e-6, 1e-4, 2e-7, 1e-12])] for v, _ in effects]
+        yield {"data": data, "effects": effects, "h2": (rng.choice([x for x in H2 if x is not None]) if tiny else (None if force_default else rng.choice(H2))), "env": None if (force_default or tiny) else rng.choice(ENV), "normalize": True if many_const else rng.random() < 0.7, "K": rng.choice(PREV), "R": rng.randint(1, 3), "tape_seed": rng.randrange(2**31), "bool_matrix": (not repeats) and rng.random() < 0.35}
 
 
 class FakeRng:
